@@ -42,7 +42,8 @@ ASSUMPTIONS = [
 ]
 REQUIRED = {"all": ["runs", "completed_runs", "steps", "accepted_steps", "rejected_in_range_steps", "out_of_range_proposals",
                     "flat_checks", "flat_checks_flat", "flat_checks_not_flat", "files_checked", "seqlog_lines_checked",
-                    "partial_range_runs", "hostile_tapes", "start_outside_range_runs", "flat_boundary_exact_hits"]}
+                    "partial_range_runs", "hostile_tapes", "start_outside_range_runs", "flat_boundary_exact_hits",
+                    "second_runs_on_same_machine", "g_beyond_709_steps"]}
 NRUNS = {"quick": 160, "thorough": 1200}
 STEP_BUDGET = {"quick": 3000, "thorough": 30000}
 WATCHDOG = {"quick": 1200, "thorough": 6 * 3600}
@@ -105,7 +106,12 @@ def cases(tier, seed):
             b = rng.randint(1, max(1, Mb - 1))         # excludes the top bin, where the run starts
             a = rng.randint(0, b - 1)
         easy = (i % 2 == 0)
-        yield {"s": seq, "M": Mb, "a": a, "b": b,
+        if i % 16 == 7:
+            # a long first iteration with few bins: ln-DOS entries grow past ln(DBL_MAX) ~ 709.8 while ln f is still 1
+            yield {"s": seq, "M": 2, "a": 0, "b": 2, "flatchk": 2600, "flatcrit": rng.choice([0.0, 0.2]), "conv": "e0.6",
+                   "frozen": [], "hostile": False, "o": rng.randrange(1 << 30), "twice": False}
+            continue
+        yield {"s": seq, "M": Mb, "a": a, "b": b, "twice": i % 6 == 2,
                "flatchk": rng.choice([1, 7, 50, 200] if easy else [7, 50, 200, 1000]),
                "flatcrit": 0.0 if i % 4 == 0 else rng.choice([0.0, 0.2, 0.5, 0.8]),
                "conv": rng.choice(["e0.6", "e0.6", "e0.3", "1.2", "e0.1"]) if easy else rng.choice(["e0.6", "e0.3"]),
@@ -299,6 +305,8 @@ class Monitor:
             self.g[self.cur_idx] += math.log(self.f)
             self.H[self.cur_idx] += 1
             self.bins_visited.add(self.cur_idx)
+            if self.g[self.cur_idx] > 709.8:
+                self.rep.cnt("g_beyond_709_steps")
         if not self.vec_eq(p["g"], self.g) or [int(x) for x in p["H"]] != self.H:
             self.bad("update_rule", "after the step g/H are %r / %r; adding ln f / 1 to the occupied bin %d%s gives %r / %r" % (
                 list(p["g"]), list(p["H"]), self.cur_idx, " (skipped step: nothing)" if skip else "", self.g, self.H), skipped=skip)
@@ -466,6 +474,21 @@ def judge(case, rep, S):
                                            case["flatchk"], case["flatcrit"], CONV[case["conv"]])
             result = machine.run()
             completed = True
+            if case.get("twice") and not mon.dead and mon.finished_f:
+                # a second run of the SAME machine is a run like any other: it starts from empty g / H
+                check_files(rep, mon, case, outdir, result, S)
+                first = mon
+                shim2 = Shim("%s/%s/second" % (ID, case["o"]), budget=20000)
+                mon = Monitor(rep, case, shim2)
+                mon.truncated = False
+                _cfg["monitor"] = mon
+                wl._verif_sink = mon.sink
+                completed = False
+                for m_ in (S["seqmod"], wl):
+                    m_.rng = shim2
+                rep.cnt("second_runs_on_same_machine")
+                result = machine.run()
+                completed = True
     except StopRun:
         pass
     except TapeExhausted:
